@@ -3,7 +3,9 @@
 The oracles look only at what the REAL templates printed (events, writes, wire bytes, shutdown/close calls);
 they do not consult the model.
 """
+import os
 import re
+import gen_http
 from vlib import Case, hx, unhx
 import gen_sim
 
@@ -234,7 +236,7 @@ def keepalive_of(reqline):
             n, val = kv.split(":")
             if unhx(n) == b"connection":
                 conn = unhx(val)
-    return (not early) and b"close" not in conn.lower()
+    return (not early) and not gen_http.has_close_option(conn)
 
 
 def oracle_c10(case, out):
@@ -362,7 +364,7 @@ def oracle_c03(case, out):
         # with an expect-continue handler AND a chunk handler registered the head of a chunked Expect request reaches
         # the application through the expect-continue event only (documented: that handler is a RequestHandler)
         cont_only = 0
-        if str(o.get("conth")) == "1" and str(o.get("chunkh")) == "1":
+        if str(o.get("conth")) in ("1", "2") and str(o.get("chunkh")) == "1":
             cont_only = sum(1 for (_, k, l) in ct.events if k == "continue" and " chunked=1" in l)
         if len(answers) > len(asked) + cont_only:
             return "c%d: %d final responses for %d requests (duplication)" % (c, len(answers), len(asked) + cont_only)
@@ -536,7 +538,7 @@ def oracle_c15(case, out):
         if kind == "none":
             if n100 or handler:
                 return "c%d: interim response / expect-continue event for a request that must not get one" % c
-        elif o.get("conth") in (1, "1"):
+        elif o.get("conth") in (1, "1", 2, "2"):
             if handler != 1:
                 return "c%d: expect-continue handler invoked %d times for one request" % (c, handler)
         else:
@@ -673,7 +675,7 @@ def net_bigbody_checks(tier, binaries, log, variants, prop):
     return res
 
 
-def net_abrupt_checks(tier, binaries, log, variants, prop):
+def net_abrupt_checks(tier, binaries, log, variants, prop, tls_midresp=True):
     """peers that end their connection without any goodbye (TLS: no close_notify), idle or after a complete
     keep-alive exchange: the server must signal disconnected for every connection it signalled as connected"""
     import re
@@ -688,8 +690,23 @@ def net_abrupt_checks(tier, binaries, log, variants, prop):
         except vlib.BuildError as e:
             res.append((False, "net_driver (%s) does not build against the current tree: %s" % (h, str(e)[-300:]), "build " + h, {}))
             continue
-        for mode in ("idle", "afterresp"):
-            args = ["abrupt", "n=%d" % (4 if tier == "quick" else 40), "mode=" + mode]
+        # midresp: the peer closes its socket with most of a large response unread (reset while the write is in flight)
+        failed_mid = False
+        for mode in ("idle", "afterresp") + ("midresp",) * 9:
+            if mode == "midresp" and failed_mid:
+                continue
+            if mode == "midresp" and h.endswith("tls") and not tls_midresp:
+                continue        # the TLS crash in this mode is C19's known finding C19-KF1; it is judged there
+            n_conn = (4 if tier == "quick" else 40)
+            if mode == "midresp":
+                n_conn = 16 if tier == "quick" else 64
+            args = ["abrupt", "n=%d" % n_conn, "mode=" + mode]
+            if mode == "midresp":
+                # how much of the response the peer reads before it closes decides which completions are queued when
+                # the reset arrives: three different amounts
+                nmid = getattr(net_abrupt_checks, "_k", 0)
+                net_abrupt_checks._k = nmid + 1
+                args.append("read=%d" % [1024, 65536, 1048576][nmid % 3])
             cmdline = "%s %s" % (h, " ".join(args))
             try:
                 r = subprocess.run([binary] + args, capture_output=True, text=True, timeout=180)
@@ -699,7 +716,9 @@ def net_abrupt_checks(tier, binaries, log, variants, prop):
             m = re.search(r"^RESULT (.*)$", r.stdout, re.M)
             n += 1
             if not m:
-                res.append((False, "abort: net_driver failed: " + (r.stdout + r.stderr)[-300:], cmdline, {}))
+                res.append((False, "abort: net_driver failed (exit status %d%s): %s" % (
+                    r.returncode, ", the server crashed" if r.returncode < 0 else "", (r.stdout + r.stderr)[-300:]), cmdline, {}))
+                failed_mid = failed_mid or mode == "midresp"
                 continue
             kv = dict(x.split("=", 1) for x in m.group(1).split() if "=" in x)
             samples.append({"variant": h, "mode": mode, "connected": kv.get("connected"), "disconnected": kv.get("disconnected")})
